@@ -39,7 +39,9 @@ Definition prog := list act.
    Every send / schedule / shutdown request of the module draws on its budget [c_bud]. *)
 Record modcfg := { c_catch : bool; c_stages : N; c_bud : N;
   c_start : list prog; c_msg : list prog; c_tasks : list prog; c_end : prog;
-  c_join : N }.   (* bit id set: the handle of task id goes to current().join(), else to try_join() *)
+  c_join : N;     (* bit id set: the handle of task id goes to current().join(), else to try_join() *)
+  c_rsend : bool }. (* Module::reset calls send / schedule: the library panics ("Could not lock mutex on single thread":
+                       buf_process holds the event buffer's lock while it runs reset) *)
 
 (* ---- future event set (C01, C03): the two-list specification of coq/CQueue/Spec.v ---- *)
 Inductive fev :=
@@ -158,7 +160,8 @@ Inductive item :=
 | ISetCatch (m who : N) (b : bool)          (* set_stereotyp(on_panic_catch := b) *)
 | ITaskEnd (m id i how : N)                 (* task id of incarnation i ended: how = 0 ran to completion, 1 panics now,
                                                2 its future was dropped unfinished *)
-| ISpawn (m id i : N) (must : bool).        (* task id of incarnation i spawned, handle given to join (must) / try_join *)
+| ISpawn (m id i : N) (must : bool)         (* task id of incarnation i spawned, handle given to join (must) / try_join *)
+| IResetPanic (m : N).                      (* Module::reset of m is about to call send / schedule: the library panics *)
 
 Record xs := { x_w : world; x_log : list item }.
 Definition say (i : item) (s : xs) : xs := {| x_w := x_w s; x_log := x_log s ++ [i] |}.
@@ -318,6 +321,8 @@ Definition dropped (c : modcfg) (x : mst) : list N :=
 Definition cancelled (m : N) (c : modcfg) (x : mst) : list item :=
   map (ICancel m) (dropped c x) ++ map (fun id => ITaskEnd m id (inc x) 2) (dropped c x).
 
+Definition rpanic (c : modcfg) (m : N) : list item := if c_rsend c then [IResetPanic m] else [].
+
 (* buf_process, second half: a requested shutdown is consumed: mark inactive, drop the tokio
    runtime (tasks and their timer entries), activate / Module::reset / deactivate, schedule
    the restart *)
@@ -329,8 +334,11 @@ Definition shutdown_part (c : modcfg) (now m : N) (w : world) : world * list ite
     let x1 := {| active := false; inc := inc x + 1; bud := bud x; shut := None; nw := nw_bump now (nw x);
                  timers := []; ready := []; hnd := hnd x; catchf := catchf x |} in
     let w2 := set_fin (set_mod w m x1) (w_fin w ++ map (fun id => (m, inc x, id, 2)) (dropped c x)) in
-    (match r with Some t => set_fes w2 (fes_add t (EvRestart m) (w_fes w2)) | None => w2 end,
-     cancelled m c x ++ [IReset m now (inc x + 1)])
+    let w3 := match r with Some t => set_fes w2 (fes_add t (EvRestart m) (w_fes w2)) | None => w2 end in
+    (* Module::reset runs under Harness::pass: a panic in it is reported whatever the stereotype says, and changes
+       nothing else: the module stays down, the restart stays scheduled *)
+    (if c_rsend c then set_err w3 (w_err w3 ++ [(0, m)]) else w3,
+     cancelled m c x ++ [IReset m now (inc x + 1)] ++ rpanic c m)
   end.
 
 (* buf_process: drain the buffered events into the event set in order, then handle a
@@ -389,7 +397,7 @@ Definition inj_ev (i : inj) : fev :=
 Record script := { s_mods : list modcfg; s_inj : list (N * inj) }.
 
 Definition cfg0 : modcfg :=
-  {| c_catch := false; c_stages := 1; c_bud := 0; c_start := []; c_msg := []; c_tasks := []; c_end := []; c_join := 0 |}.
+  {| c_catch := false; c_stages := 1; c_bud := 0; c_start := []; c_msg := []; c_tasks := []; c_end := []; c_join := 0; c_rsend := false |}.
 Definition nmods (sc : script) : N := N.of_nat (length (s_mods sc)).
 Definition cfg (sc : script) (m : N) : modcfg := nth (N.to_nat m) (s_mods sc) cfg0.
 
@@ -520,7 +528,7 @@ Definition quiet_act (a : act) : act := match a with APanic => AQuiet | _ => a e
 Definition quiet_cfg (c : modcfg) : modcfg :=
   {| c_catch := c_catch c; c_stages := c_stages c; c_bud := c_bud c;
      c_start := map (map quiet_act) (c_start c); c_msg := map (map quiet_act) (c_msg c);
-     c_tasks := c_tasks c; c_end := map quiet_act (c_end c); c_join := c_join c |}.
+     c_tasks := c_tasks c; c_end := map quiet_act (c_end c); c_join := c_join c; c_rsend := c_rsend c |}.
 Fixpoint upd_nth {A} (n : nat) (f : A -> A) (l : list A) : list A :=
   match l, n with
   | [], _ => []
